@@ -44,6 +44,8 @@ pub enum Kind {
     Empty,
     Exec,
     Colon,
+    /// `command . /work/libK.sh` - the shell opens the script for its own use
+    Dot,
 }
 
 #[derive(Clone, Debug, Serialize, Deserialize, PartialEq)]
@@ -160,7 +162,8 @@ pub fn generate(rng: &mut Rng, tier: Tier) -> Case {
         }
         let last = i + 1 == n;
         let kind = match rng.below(if last { 24 } else { 21 }) {
-            0..=4 => Kind::Builtin,
+            0..=2 => Kind::Builtin,
+            3..=4 => Kind::Dot,
             5..=6 => Kind::Func,
             7..=8 => Kind::Brace,
             9 => Kind::IfC,
@@ -270,6 +273,7 @@ pub fn render(c: &Case) -> String {
                     Kind::Subshell => format!("( io {o} ) {rs}"),
                     Kind::Eval => format!("eval 'io {o}' {rs}"),
                     Kind::Command => format!("command io {o} {rs}"),
+                    Kind::Dot => format!("command . /work/lib{k}.sh {rs}"),
                     Kind::NotFound => format!("nosuch_cmd {rs}"),
                     Kind::Empty => rs.to_string(),
                     Kind::Exec => format!("exec {rs}"),
@@ -919,7 +923,7 @@ fn check_model(c: &Case, exp: &Expect, obs: &Observed) -> Option<Viol> {
     }
     for path in obs.files.keys() {
         let name = path.trim_start_matches("/work/");
-        if path != "/work" && !exp.files.contains_key(name) && name != "script.sh" && !name.starts_with("nodir") {
+        if path != "/work" && !exp.files.contains_key(name) && name != "script.sh" && !name.starts_with("nodir") && !name.starts_with("lib") {
             return Some((
                 "files".into(),
                 "files".into(),
@@ -943,10 +947,26 @@ fn spec_of(c: &Case) -> ScriptSpec {
         script: render(c),
         dash_c: !c.as_file,
         as_file: c.as_file,
-        files: vec![
-            ("/work/e1".into(), E1.to_vec(), 0o644),
-            ("/work/e2".into(), E2.to_vec(), 0o644),
-        ],
+        files: {
+            let mut files = vec![
+                ("/work/e1".into(), E1.to_vec(), 0o644),
+                ("/work/e2".into(), E2.to_vec(), 0o644),
+            ];
+            let mut k = 0;
+            for item in &c.items {
+                if let Item::Cmd { kind, ops, .. } = item {
+                    k += 1;
+                    if *kind == Kind::Dot {
+                        files.push((
+                            format!("/work/lib{k}.sh"),
+                            format!("io {}\n", render_ops(ops, &format!("d{k}"))).into_bytes(),
+                            0o644,
+                        ));
+                    }
+                }
+            }
+            files
+        },
         ..Default::default()
     }
 }
